@@ -103,6 +103,22 @@ pub fn gen(rng: &mut Rng, quick: bool, st: &mut Stats) -> Vec<String> {
         }
     }
     st.add("lists_random", nrand);
+    // entries whose fields all need the widest varints (id deltas >= 2^56, runs and lengths >= 2^28, offsets >= 2^63)
+    for n in [1usize, 2, 3, 4, 7] {
+        let mut es: Vec<Entry> = Vec::new();
+        let mut id: u64 = 1 << 56;
+        for k in 0..n {
+            let off: u64 = (1u64 << 63) + (k as u64) * ((1u64 << 32) + 12345) * 3 + rng.below(1000);
+            es.push(Entry { tile_id: id, offset: off, length: u32::MAX - k as u32, run_length: if k % 3 == 2 { 0 } else { (1 << 28) + k as u32 } });
+            id += (1u64 << 56) + (1 << 29);
+            if id >= 1 << 62 {
+                break;
+            }
+        }
+        lists.push(es);
+        st.add("lists_maximal_width", 1);
+    }
+    lists.push(vec![Entry { tile_id: 5, offset: u64::MAX - 7, length: 3, run_length: 1 }, Entry { tile_id: 9, offset: (1 << 63) - 1, length: 1, run_length: 2 }]);
     // very regular directories: under a codec they shrink to far less than one byte per entry
     for (i, n) in (if quick { vec![500usize, 3000, 20_000] } else { vec![500, 3000, 20_000, 60_000, 100_000] }).into_iter().enumerate() {
         let len = [1000u32, 7, 65_536][i % 3];
